@@ -205,6 +205,7 @@ func doAbuse() {
 	reentrantBattery()
 	outNilFieldBattery()
 	abnormalBattery()
+	lazyBattery()
 	tS0, tS1, tS2 := reflect.TypeOf((*S0)(nil)), reflect.TypeOf((*S1)(nil)), reflect.TypeOf((*S2)(nil))
 	tU := reflect.TypeOf((*unregistered)(nil))
 	c := godi.NewCollection()
